@@ -132,6 +132,9 @@ inline bool applyDev(Shape& sh, const std::string& dev) {   // returns false if 
     if (dev == "pt_missing") { if (sh.pts.empty()) return false; sh.pts.pop_back(); return true; }
     if (dev == "pt_extra") { sh.pts.push_back("Z"); return true; }
     if (dev == "pt_renamed") { if (sh.pts.empty()) return false; sh.pts.back() = "Z"; return true; }
+    if (dev == "pt_renamed_first") { if (sh.pts.size() < 2) return false; sh.pts.front() = "Z"; return true; }
+    if (dev == "addpoints") { if (!sh.pts.empty() || sh.nsub == 0) return false; sh.pts = {"Y", "Z"}; return true; }        // a frame that brings its own points to an object without any (POINT:USED == 0)
+    if (dev == "addanalogs") { if (sh.nsub != 0 || !sh.chans.empty() || sh.pts.empty()) return false; sh.chans = {"y"}; sh.nsub = 1; return true; }
     if (dev == "pt_dup") { if (sh.pts.size() < 2) return false; sh.pts.back() = sh.pts.front(); return true; }
     if (dev == "pt_perm") { if (sh.pts.size() < 2 || sh.pts[0] == sh.pts[1]) return false; std::swap(sh.pts[0], sh.pts[1]); return true; }
     if (dev == "pt_none") { if (sh.pts.empty()) return false; sh.pts.clear(); return true; }
@@ -164,6 +167,9 @@ inline Op opFrame(const std::string& dev, const std::string& tgt, int vs, const 
         bool app; size_t idx; if (!targetIdx(tgt, s.o.frames.size(), app, idx)) return false;
         if (framesAfter(app, idx, s.o.frames.size()) > L.maxFrames) return false;
         Shape sh = declaredShape(s.o); if (dev == "ok" && sh.pts.empty() && sh.nsub == 0) return false;
+        if ((dev == "addpoints" || dev == "addanalogs") && !(s.o.frames.size() == 1 && tgt == "0")) return false;   // only as the replacement of the single stored frame: the data set stays uniform
+        if (dev == "addpoints" && pFloat(s.o, "POINT", "RATE") == 0.0f) return false;
+        if (dev == "addanalogs" && (pFloat(s.o, "ANALOG", "RATE") == 0.0f || pInt(s.o, "ANALOG", "USED") != 0)) return false;
         if (L.documentedDevsOnly && dev.compare(0, 3, "pt_") == 0 && pInt(s.o, "POINT", "USED") <= 0) return false;
         if (L.documentedDevsOnly && dev.compare(0, 3, "ch_") == 0 && pInt(s.o, "ANALOG", "USED") <= 0) return false;
         return applyDev(sh, dev);
@@ -363,7 +369,7 @@ inline Op opSubmitStored(size_t fi, const std::string& tgt, const Limits& L) {
 inline Op opLoadRoot(const std::string& id, const std::string& path) {
     Op o; o.name = "load(" + id + ")"; o.cls = "load";
     o.enabled = [](const World&, const WSnap&) { return false; };   // enabled explicitly by the explorer at depth 0
-    o.apply = [path](World& w, const WSnap&, CallInfo& ci) { ci.kind = K_LOAD_ROOT; std::unique_ptr<C3D> n(new C3D(path)); w.c = std::move(n); };
+    o.apply = [path](World& w, const WSnap&, CallInfo& ci) { ci.kind = K_LOAD_ROOT; std::unique_ptr<C3D> n(new C3D(path)); w.c = std::move(n); w.loadedRoot = true; };
     return o;
 }
 
